@@ -850,6 +850,116 @@ let cmd_decend (a : sx list) : string =
         (int_of_nat_tr unused) (int_of_nat_tr lim) (show_endres old)
   | _ -> failwith "decend: arguments"
 
+(* ccr CAP xFILE MODE POLICY SCHEMASRC ITEM... : ContainerCodec.ccr_file -- the reader of a WHOLE file with compressed blocks --
+   with the streaming decoder replayed from the reads hook H4 recorded when the crate read the same file
+   (ContainerReplay.rp_dread), the value decoder ContainerCodec.cc_vdec for the schema of the header, the codec named in
+   the header (deflate / bzip2 / xz / zstandard: BStream CAP, CAP = 0: 8192; snappy: BSnappy).
+   MODE ::= slice | (chunks N...)          POLICY ::= fill | direct    (read policy of DecodeLoop.br_demand)
+   SCHEMASRC ::= (json JSONAST) -- parsed by Parse.parse_schema -- | (schema NODE...)
+   ITEM ::= (blk OFFSET SIZE CHKEY ANSWER...)   one block the crate entered: its SIZE bytes start at OFFSET of the file
+                                                (the key of the replay = those bytes + CHKEY ::= none | (LEFT LATER))
+                                                ANSWER ::= err | (xBYTES CONSUMED)
+          | (snappy (xRAW none | xDATA CRC)...)  snap::raw on RAW gave DATA (or failed), crc32 DATA = CRC
+   -> (ok xJSON xCODEC (meta (xK xV)...) xSYNC (values DVAL...) END) | (open-err STAGE) | (unmodelled xCODEC) | (panic) ...
+   END ::= eof | neg | open | fuel | (head ITEM) | (block value|decoder-err|leftover|take-left|sync-short|sync-mismatch) *)
+let rec l_drop n l = if n <= 0 then l else (match l with [] -> [] | _ :: t -> l_drop (n - 1) t)
+let l_take n l =
+  let rec go n l acc = if n <= 0 then L.rev acc else (match l with [] -> L.rev acc | x :: t -> go (n - 1) t (x :: acc)) in
+  go n l []
+let show_cend (e : ContainerCodec.cend) : string =
+  match e with
+  | ContainerCodec.CEof -> "eof" | ContainerCodec.CNeg -> "neg" | ContainerCodec.COpen -> "open" | ContainerCodec.CFuel -> "fuel"
+  | ContainerCodec.CHead it -> "(head " ^ show_item it ^ ")"
+  | ContainerCodec.CBlock b ->
+      "(block " ^ (match b with
+                   | DecodeLoop.BDone _ -> "done"
+                   | DecodeLoop.BValueErr -> "value"
+                   | DecodeLoop.BEndErr e -> show_endres e
+                   | DecodeLoop.BSyncShort -> "sync-short"
+                   | DecodeLoop.BSyncMismatch -> "sync-mismatch") ^ ")"
+let cmd_ccr (a : sx list) : string =
+  match a with
+  | cap :: file :: mode :: policy :: schsrc :: items ->
+      let bytes = sx_bytes file in
+      let rs = (match head mode with
+                | ("slice", _) -> Reader.slice_reader bytes
+                | ("chunks", plan) -> Reader.chunked_reader bytes (L.map sx_n plan) (n_of_z (Z.of_int (512 * 1024 * 1024)))
+                | _ -> failwith "bad mode") in
+      let pol = (match atom policy with
+                 | "fill" -> ContainerReplay.rp_policy_fill
+                 | "direct" -> ContainerReplay.rp_policy_direct
+                 | _ -> failwith "ccr: policy") in
+      let total = ref 8 in
+      let table = L.concat (L.map (fun it -> match head it with
+          | ("blk", off :: size :: chkey :: answers) ->
+              let avail = l_take (int_of_string (atom size)) (l_drop (int_of_string (atom off)) bytes) in
+              let key = (match chkey with
+                         | A "none" -> None
+                         | Ls [l; n] -> Some (sx_n l, nat_of_int_tr (int_of_string (atom n)))
+                         | _ -> failwith "ccr: bad chunk key") in
+              let ans = L.map (fun x -> match x with
+                  | A "err" -> incr total; None
+                  | Ls [b; c] ->
+                      let o = sx_bytes b in
+                      total := !total + 1 + L.length o;
+                      Some (o, nat_of_int_tr (int_of_string (atom c)))
+                  | _ -> failwith "ccr: bad answer") answers in
+              [{ ContainerReplay.rpb_avail = avail; rpb_ch = key; rpb_answers = ans }]
+          | ("snappy", _) -> []
+          | _ -> failwith "ccr: bad item") items) in
+      let snaps = L.concat (L.map (fun it -> match head it with
+          | ("snappy", l) -> L.map (function
+               | Ls [r; A "none"] -> (sx_bytes r, None)
+               | Ls [r; d; c] -> (sx_bytes r, Some (sx_bytes d, sx_n c))
+               | _ -> failwith "ccr: bad snappy entry") l
+          | _ -> []) items) in
+      let raw_tbl = L.map (fun (r, v) -> (r, (match v with None -> None | Some (d, _) -> Some d))) snaps in
+      let crc_tbl = L.concat (L.map (fun (_, v) -> match v with None -> [] | Some (d, c) -> [(d, c)]) snaps) in
+      (match cr_open rs with
+       | Ok ((entries, _), _) ->
+           (match header_meta entries with
+            | Ok ((json, codec), user) ->
+                let fs = (match head schsrc with
+                          | ("json", [j]) ->
+                              (match Parse.parse_schema (sx_json j) with
+                               | Ok g -> (match freeze_nodes (nat_of_int (L.length g)) g with Ok fs -> Some fs | _ -> None)
+                               | _ -> None)
+                          | ("schema", _) -> (match frozen schsrc with Ok fs -> Some fs | _ -> None)
+                          | _ -> failwith "ccr: schema source") in
+                (match fs with
+                 | None -> "(open-err schema)"
+                 | Some fs ->
+                     (match Schema.fnode_at fs Datatypes.O with
+                      | None -> "(open-err schema)"
+                      | Some root ->
+                          let capn = (match int_of_string (atom cap) with 0 -> 8192 | c -> c) in
+                          let kind = (match hex codec with
+                                      | "x736e61707079" -> Some ContainerCodec.BSnappy
+                                      | "x6e756c6c" -> None
+                                      | _ -> Some (ContainerCodec.BStream (nat_of_int_tr capn))) in
+                          (match kind with
+                           | None -> "(unmodelled " ^ hex codec ^ ")"
+                           | Some kind ->
+                               (match ContainerCodec.ccr_file ContainerReplay.rp_dread (ContainerReplay.rp_d0 table) pol
+                                        (ContainerReplay.rp_raw_dec raw_tbl) (ContainerReplay.rp_crc32 crc_tbl)
+                                        (ContainerCodec.cc_vdec fs De.cfg_default root) kind (nat_of_int_tr !total) rs with
+                                | Ok (((entries2, sy), vs), e) ->
+                                    if entries2 <> entries then "(inconsistent-header)" else
+                                    let meta = L.sort compare (L.map (fun (k, v) -> (hex k, hex v)) user) in
+                                    "(ok " ^ hex json ^ " " ^ hex codec
+                                    ^ " (meta" ^ String.concat "" (L.map (fun (k, v) -> " (" ^ k ^ " " ^ v ^ ")") meta) ^ ") "
+                                    ^ hex sy ^ " (values" ^ String.concat "" (L.map (fun d -> " " ^ show_dval d) vs) ^ ") "
+                                    ^ show_cend e ^ ")"
+                                | Err _ -> "(open-err header)"
+                                | Panic _ -> "(panic)"
+                                | OutOfFuel -> "(outoffuel)"
+                                | Unmodelled -> "(unmodelled)"))))
+            | _ -> "(open-err meta)")
+       | Err _ -> "(open-err header)"
+       | Panic _ -> "(panic)"
+       | _ -> "(unmodelled)")
+  | _ -> failwith "ccr: arguments"
+
 let run_case (line : string) : string =
   try
     match parse_many line with
@@ -875,6 +985,7 @@ let run_case (line : string) : string =
          | "codecloop" -> cmd_codecloop args
          | "snappy" -> cmd_snappy args
          | "decend" -> cmd_decend args
+         | "ccr" -> cmd_ccr args
          | "own" -> cmd_own args
          | _ -> failwith ("unknown command " ^ cmd))
     | _ -> "(bad-case)"
